@@ -449,6 +449,18 @@ impl LiveOverlay {
     pub(super) fn parent_root(&self) -> Option<Node> {
         self.parent.as_ref().map(|p| p.root)
     }
+
+    /// Whether the nearest ancestor, if any, is the overlay which was committed last.
+    ///
+    /// A changeset prepared on top of an overlay is only valid directly after that overlay has
+    /// been committed.
+    pub(super) fn parent_matches_marker(&self, marker: Option<&OverlayMarker>) -> bool {
+        match (self.parent.as_ref(), marker) {
+            (None, _) => true,
+            (Some(parent), Some(marker)) => parent.data.status.ptr_eq(&marker.0),
+            _ => false,
+        }
+    }
 }
 
 #[cfg(test)]
